@@ -3,7 +3,7 @@ import json
 import random
 from multiprocessing import Pool
 
-from . import consfam, tlc
+from . import consfam, consfull, tlc
 from .check_conn import judge
 from .report import run_check
 
@@ -32,6 +32,11 @@ def _exec(args):
     kind, cfg, payload = args
     if kind == "events":
         return consfam.execute(cfg, payload)
+    if kind == "full":
+        cfg = [c for c in consfull.CONFIGS if c["name"] == cfg][0]
+        t = consfull.random_run(cfg, payload[0], payload[1])
+        t["seed"], t["length"] = payload
+        return t
     return consfam.random_run(cfg, payload[0], payload[1])
 
 
@@ -82,6 +87,32 @@ def run_consumer(chk, prop, tier, seed, alias=None, only=None):
         judge(chk, prop, "consumer[%s]" % cfg["name"], traces, results, lambda t: t["steps"], csig, sources, alias=alias)
 
 
+def run_full(chk, prop, tier, seed, alias=None):
+    """the real Consumer over the real client, codec and the simulated cluster; consumer-level events derived by the recorder"""
+    thorough = tier == "thorough"
+    for ci, cfg in enumerate(consfull.CONFIGS):
+        wd = tlc.workdir("%s-%s-consfull-%d" % (prop, tier, ci))
+        n = 2500 if thorough else 250
+        jobs = [("full", cfg["name"], (seed * 7919 + ci * 100003 + k, 130)) for k in range(n)]
+        sources = ["full-stack random seed=%d" % j[2][0] for j in jobs]
+        with Pool(14) as pool:
+            traces = pool.map(_exec, jobs, chunksize=10)
+        keep = [(t, s_) for t, s_ in zip(traces, sources) if t and t["steps"]]
+        traces = [t for t, _ in keep]
+        sources = [s_ for _, s_ in keep]
+        tdefs, tlines = trace_cfg(cfg)
+        results, _ = tlc.validate_traces(wd, "Consumer_Trace", traces, tdefs, tlines, timeout=1500)
+        chk.add_traces(len(traces), sum(len(t["steps"]) for t in traces))
+        kinds = {}
+        for t in traces:
+            for st in t["steps"]:
+                k = st["e"]["a"] + (":" + st["e"]["k"] if st["e"]["k"] and st["e"]["a"] != "Commit" else "")
+                kinds[k] = kinds.get(k, 0) + 1
+        chk.extra.setdefault("full_stack_event_counts", {})[cfg["name"]] = kinds
+        chk.sample({"family": "consumer-full", "config": cfg["name"], "source": sources[-1], "trace": traces[-1]["steps"][:8]})
+        judge(chk, prop, "consumer-full[%s]" % cfg["name"], traces, results, lambda t: t["steps"], csig, sources, alias=alias)
+
+
 def grow_not_skip(chk, tier, seed):
     """C12, consumer half: after 'fetch size too small' the next fetch has the same offset and the next buffer size."""
     def alias(clause, step):
@@ -96,9 +127,14 @@ def main(prop, tier, seed, replay_file):
     if replay_file:
         with open(replay_file) as f:
             rp = json.load(f)
-        name = rp["family"][len("consumer["):-1]
-        cfg = [c for c in consfam.CONFIGS if c["name"] == name][0]
-        tr = consfam.execute(cfg, [r.get("was", r["e"]) for r in rp["trace"]["steps"]])
+        if rp["family"].startswith("consumer-full["):
+            name = rp["family"][len("consumer-full["):-1]
+            cfg = [c for c in consfull.CONFIGS if c["name"] == name][0]
+            tr = consfull.random_run(cfg, rp["trace"]["seed"], rp["trace"]["length"])
+        else:
+            name = rp["family"][len("consumer["):-1]
+            cfg = [c for c in consfam.CONFIGS if c["name"] == name][0]
+            tr = consfam.execute(cfg, [r.get("was", r["e"]) for r in rp["trace"]["steps"]])
         wd = tlc.workdir("replay-%s" % prop)
         tdefs, tlines = trace_cfg(cfg)
         results, _ = tlc.validate_traces(wd, "Consumer_Trace", [tr], tdefs, tlines, workers=1)
@@ -111,5 +147,8 @@ def main(prop, tier, seed, replay_file):
             "process death is modelled as abandoning the consumer at an event boundary and starting a new one from the committed position",
         ]
         run_consumer(chk, prop, tier, seed)
+        chk.assumptions.append("full-stack runs: consumer-level events are derived from the completion of the client's request methods; "
+                               "a completion arriving while the consumer handles another event is delivered right after it")
+        run_full(chk, prop, tier, seed)
 
     run_check(prop, tier, seed, body)
